@@ -18,8 +18,14 @@ sub-tree*; `.err es` = it returned `None` having appended exactly `es` (in this 
 `.crash site` = it raised.  (`transform` has the post-condition `result is None ⇒ errors`,
 and `None` is propagated by every parent, so these are the only observable outcomes.)
 
-What the inferrer does **NOT** check is kept visible as `-- NOT CHECKED` comments: these are
-the places where full type soundness fails (findings `C07:unchecked:*`).
+The checks of the operand types of ordering comparisons (`orderable`), of `in` (`isInCheck`),
+of the boolean contexts (`Decls.isBool`) and of the call arguments (`checkArgs` with `passable` /
+`assignable`, `len`) are the repairs of the former findings `C07:unchecked:*`.
+
+`inferInv` is `infer_for_invariant`: `infer` of the body plus the check that the body is boolean.
+With `Γ.backend` the traversal also applies the check of the Python transpiler on the argument
+of `len` (`Err.lenKind`), which is made on the recorded types after a successful inference; the
+verdict is the same as that of the two passes.
 -/
 namespace AasVerif.Expr
 
@@ -27,15 +33,19 @@ namespace AasVerif.Expr
 inductive Err where
   | ourTypeNotClass | memberNotFound | literalNotFound | instanceOptional | instanceNotInstance
   | collectionOptional | indexOptional | indexOnNonList | indexNotInt
-  | leftOptional | rightOptional
-  | isInMemberOptional | containerOptional
-  | antecedentOptional
+  | leftOptional | rightOptional | cmpNotOrderable
+  | isInMemberOptional | containerOptional | memberUnhashable | memberNotSamePrim | containerNotContainer
+  | antecedentOptional | antecedentNotBool | consequentNotBool
   | methodMemberOptional | notAMethod
   | notAFunction
+  | argCount | argNotPassable | lenArgCount | lenArgOptional
+  /-- the Python transpiler: "We do not know how to compute the length on type …" -/
+  | lenKind
   | isNoneOnNonOptional | isNotNoneOnNonOptional
-  | operandOptional
+  | operandOptional | operandNotBool
   | unknownName
-  | valueOptional
+  | valueOptional | valueNotBool
+  | bodyNotBool
   | leftNotNumeric | rightNotNumeric | mixFloatInt
   | fvOptional
   | varAlreadyDefined | iterOptional | iterNotList
@@ -156,9 +166,106 @@ def condRes : Res Ty → Res Ty
   | .crash s => .crash s
 
 /-- the errors a list of sub-trees appended (none when it succeeded) -/
-def errsOf : Res Unit → List Err
+def errsOf {α : Type} : Res α → List Err
   | .err es => es
   | _ => []
+
+/-! ### The checks on operand and argument types -/
+
+def Cmp.isOrdering : Cmp → Bool
+  | .lt | .le | .gt | .ge => true
+  | .eq | .ne => false
+
+/-- `a_type in (INT, FLOAT, LENGTH)` -/
+def Prim.isNumber : Prim → Bool
+  | .int | .float | .length => true
+  | _ => false
+
+/-- `transform_comparison`: the ordering is defined between two numbers, two strings, two byte
+arrays (constrained primitives count as their constrainees) -/
+def orderable (D : Decls) (lt rt : Ty) : Bool :=
+  match D.tryPrim lt, D.tryPrim rt with
+  | some a, some b =>
+    (a.isNumber && b.isNumber) || (a == .str && b == .str) || (a == .bytearray && b == .bytearray)
+  | _, _ => false
+
+/-- `transform_is_in` after the non-None checks -/
+def isInCheck (D : Decls) (mt ct : Ty) : Res Ty :=
+  match ct with
+  | .list _ => .ok .bool
+  | .set _ =>
+    match mt with
+    | .prim _ | .our _ => .ok .bool
+    | _ => .err [.memberUnhashable]
+  | _ =>
+    match D.tryPrim ct with
+    | some .str => if D.tryPrim mt = some .str then .ok .bool else .err [.memberNotSamePrim]
+    | some .bytearray => if D.tryPrim mt = some .bytearray then .ok .bool else .err [.memberNotSamePrim]
+    | _ => .err [.containerNotContainer]
+
+/-- `_assignable(target_type, value_type)` for a declared, non-Optional, non-list target -/
+def assignable (D : Decls) : Ty → Ty → Bool
+  | .prim p, .prim q => p == q
+  | .prim p, .our c =>
+    match D.findOur c with
+    | some (.cprim q _ _) => p == q
+    | _ => false
+  | .our t, v =>
+    match D.findOur t with
+    | some (.enum _) => v == .our t
+    | some (.cprim q constrained desc) =>
+      match v with
+      | .prim r => !constrained && q == r
+      | .our c =>
+        match D.findOur c with
+        | some (.cprim r _ _) => q == r && (c == t || desc.contains c)
+        | _ => false
+      | _ => false
+    | some (.cls cd) =>
+      match v with
+      | .our c =>
+        match D.findOur c with
+        | some (.cls _) => c == t || cd.descendants.contains c
+        | _ => false
+      | _ => false
+    | none => false
+  | _, _ => false
+
+/-- `_passable(parameter_type, argument_type)`: as `_assignable`, but lists are co-variant and a
+length passes for an integer -/
+def passable (D : Decls) : Ty → Ty → Bool
+  | .opt p, .opt a => passable D p a
+  | .opt p, a => passable D p a
+  | _, .opt _ => false
+  | .list p, .list a => passable D p a
+  | .list _, _ => false
+  | .prim .int, .prim .length => true
+  | _, .enumType _ => false
+  | p, a => assignable D p a
+
+/-- the errors of `_check_arguments`: the number of arguments, then one error per argument that
+cannot be passed -/
+def passErrs (D : Decls) : List Ty → List Ty → List Err
+  | p :: ps, a :: as => (if passable D p a then [] else [Err.argNotPassable]) ++ passErrs D ps as
+  | _, _ => []
+
+def checkArgs (D : Decls) (params args : List Ty) : List Err :=
+  if args.length ≠ params.length then [.argCount] else passErrs D params args
+
+/-- the types whose length the Python transpiler computes (as the C#, Java, TypeScript ones) -/
+def lenable (D : Decls) (τ : Ty) : Bool :=
+  match τ with
+  | .list _ => true
+  | _ => D.tryPrim τ == some .str || D.tryPrim τ == some .bytearray
+
+/-- the declared argument types of the method `n` of the class of the instance -/
+def methodParams (Γ : TEnv) (ri : Res Ty) (n : Text) : Option (List Ty) :=
+  match ri with
+  | .ok (.our c) =>
+    match Γ.decls.findOur c with
+    | some (.cls cd) => assoc n cd.mparams
+    | _ => none
+  | _ => none
 
 mutual
   def infer (key : Expr → κ) (Γ : TEnv) (F : Facts κ) : Expr → Res Ty
@@ -177,15 +284,15 @@ mutual
         | .crash s => .crash s
       | .err es => .err es
       | .crash s => .crash s
-    | .cmp l _ r =>
+    | .cmp l op r =>
       match infer key Γ F l with
       | .ok lt =>
         match infer key Γ F r with
         | .ok rt =>
-          -- NOT CHECKED: that the operand types are comparable with each other
-          -- (`self.some_str < 3`, `self.some_instance > 0` are accepted)  [C07:unchecked:comparison-operand-types]
           let es := (if lt.isOpt then [Err.leftOptional] else []) ++ (if rt.isOpt then [Err.rightOptional] else [])
-          if es ≠ [] then .err es else .ok .bool
+          if es ≠ [] then .err es else
+          -- `==` / `!=` are defined between any two values; the ordering is not
+          if op.isOrdering && !orderable Γ.decls lt rt then .err [.cmpNotOrderable] else .ok .bool
         | .err es => .err es
         | .crash s => .crash s
       | .err es => .err es
@@ -200,10 +307,8 @@ mutual
         | rc =>
           match rm, rc with
           | .ok mt, .ok ct =>
-            -- NOT CHECKED: that the container is a container at all, and of what
-            -- (`self.n in self.m` with two ints is accepted)  [C07:unchecked:isin-operand-types]
             let es := (if mt.isOpt then [Err.isInMemberOptional] else []) ++ (if ct.isOpt then [Err.containerOptional] else [])
-            if es ≠ [] then .err es else .ok .bool
+            if es ≠ [] then .err es else isInCheck Γ.decls mt ct
           | .err e1, .err e2 => .err (e1 ++ e2)
           | .err e1, _ => .err e1
           | _, .err e2 => .err e2
@@ -211,17 +316,18 @@ mutual
     | .impl a c =>
       match infer key Γ F a with
       | .ok at_ =>
-        -- NOT CHECKED: that antecedent and consequent are `bool`  [C07:unchecked:bool-context]
-        let here := if at_.isOpt then [Err.antecedentOptional] else []
+        let here := if at_.isOpt then [Err.antecedentOptional]
+          else if Γ.decls.isBool at_ then [] else [Err.antecedentNotBool]
         match infer key Γ (implFacts key F a) c with
-        | .ok _ => if here ≠ [] then .err here else .ok .bool
+        | .ok ct =>
+          let all := here ++ (if Γ.decls.isBool ct then [] else [Err.consequentNotBool])
+          if all ≠ [] then .err all else .ok .bool
         | .err es => .err (here ++ es)
         | .crash s => .crash s
       | .err es => .err es
       | .crash s => .crash s
     | .methodCall i n args =>
-      -- "Simply recurse to track the type, but we don't care about the arguments"
-      -- NOT CHECKED: number and types of the arguments  [C07:unchecked:call-argument-types]
+      -- the arguments first, then the member; `_check_arguments` when nothing failed
       match inferArgs key Γ F args with
       | .crash s => .crash s
       | ra =>
@@ -232,35 +338,53 @@ mutual
         | .ok mt =>
           match ra with
           | .err ea => .err ea
-          | _ =>
+          | .crash s => .crash s
+          | .ok ts =>
             match mt with
-            | .method _ ret => .ok (strip F (key (.methodCall i n args)) (retTy ret))
+            | .method _ ret =>
+              match methodParams Γ (infer key Γ F i) n with
+              | some ps =>
+                if checkArgs Γ.decls ps ts ≠ [] then .err (checkArgs Γ.decls ps ts)
+                else .ok (strip F (key (.methodCall i n args)) (retTy ret))
+              | none => .crash "method_call:no-such-method"  -- a method type comes from the class
             | _ => .err [.notAMethod]
     | .name x => inferName key Γ F x
     | .funCall n args =>
       match inferName key Γ F n with
       | .crash s => .crash s
       | rf =>
-        -- NOT CHECKED: number and types of the arguments ("we are sloppy here")
-        -- [C07:unchecked:call-argument-types]; in particular an Optional argument is accepted
+        -- the arguments are transformed even if the name failed (errors accumulate)
         match inferArgs key Γ F args with
         | .crash s => .crash s
         | ra =>
           match rf with
           | .err e0 => .err (e0 ++ errsOf ra)
-          | .ok (.verif _ ret) =>
+          | .ok (.verif m ret) =>
             match ra with
             | .err ea => .err ea
-            | _ => .ok (strip F (key (.funCall n args)) (retTy ret))
-          | .ok (.builtin _ ret) =>
+            | .crash s => .crash s
+            | .ok ts =>
+              match Γ.decls.findFn m with
+              | some f =>
+                if checkArgs Γ.decls f.params ts ≠ [] then .err (checkArgs Γ.decls f.params ts)
+                else .ok (strip F (key (.funCall n args)) (retTy ret))
+              | none => .crash "function_call:no-such-function"  -- a function type comes from the declarations
+          | .ok (.builtin m ret) =>
             match ra with
             | .err ea => .err ea
-            | _ => .ok (strip F (key (.funCall n args)) (retTy ret))
-          | .ok _ =>
-            -- the error is appended but `failed` stays False: `assert result is not None` raises
-            match ra with
-            | .err ea => .err (Err.notAFunction :: ea)
-            | _ => .crash "function_call:assert-result"
+            | .crash s => .crash s
+            | .ok ts =>
+              if m ≠ lenName then .ok (strip F (key (.funCall n args)) (retTy ret)) else
+              -- `len`: exactly one argument, which is not `None`; which types have a length is left
+              -- to the transpilers (the Python one: `Γ.backend`)
+              match ts with
+              | [t] =>
+                if t.isOpt then .err [.lenArgOptional]
+                else if Γ.backend && !lenable Γ.decls t then .err [.lenKind]
+                else .ok (strip F (key (.funCall n args)) (retTy ret))
+              | _ => .err [.lenArgCount]
+          -- not a function: the error, `failed = True`, then the errors of the arguments
+          | .ok _ => .err (Err.notAFunction :: errsOf ra)
           | .crash s => .crash s
     | .const c => .ok (constTy c)
     | .isNone e =>
@@ -277,8 +401,9 @@ mutual
       | .crash s => .crash s
     | .not e =>
       match infer key Γ F e with
-      -- NOT CHECKED: that the operand is `bool`  [C07:unchecked:bool-context]
-      | .ok τ => if τ.isOpt then .err [.operandOptional] else .ok .bool
+      | .ok τ =>
+        if τ.isOpt then .err [.operandOptional]
+        else if Γ.decls.isBool τ then .ok .bool else .err [.operandNotBool]
       | .err es => .err es
       | .crash s => .crash s
     | .and es =>
@@ -341,8 +466,7 @@ mutual
     | e :: es =>
       match infer key Γ F e with
       | .ok τ =>
-        -- NOT CHECKED: that the conjunct is `bool`  [C07:unchecked:bool-context]
-        let here := if τ.isOpt then [Err.valueOptional] else []
+        let here := if τ.isOpt then [Err.valueOptional] else if Γ.decls.isBool τ then [] else [Err.valueNotBool]
         match inferAnd key Γ (andFact key F e) es with
         | .ok _ => if here ≠ [] then .err here else .ok ()
         | .err xs => .err (here ++ xs)
@@ -355,17 +479,16 @@ mutual
     | e :: es =>
       match infer key Γ F e with
       | .ok τ =>
-        -- NOT CHECKED: that the disjunct is `bool`  [C07:unchecked:bool-context]
-        let here := if τ.isOpt then [Err.valueOptional] else []
+        let here := if τ.isOpt then [Err.valueOptional] else if Γ.decls.isBool τ then [] else [Err.valueNotBool]
         match inferOr key Γ (orFact key F e) es with
         | .ok _ => if here ≠ [] then .err here else .ok ()
         | .err xs => .err (here ++ xs)
         | .crash s => .crash s
       | .err xs => .err xs
       | .crash s => .crash s
-  /-- all the arguments are transformed, the errors accumulate; their types are dropped -/
-  def inferArgs (key : Expr → κ) (Γ : TEnv) (F : Facts κ) : List Expr → Res Unit
-    | [] => .ok ()
+  /-- all the arguments are transformed, the errors accumulate; the types of the arguments -/
+  def inferArgs (key : Expr → κ) (Γ : TEnv) (F : Facts κ) : List Expr → Res (List Ty)
+    | [] => .ok []
     | e :: es =>
       match infer key Γ F e with
       | .crash s => .crash s
@@ -374,7 +497,11 @@ mutual
         | .ok _ => .err xs
         | .err ys => .err (xs ++ ys)
         | .crash s => .crash s
-      | .ok _ => inferArgs key Γ F es
+      | .ok τ =>
+        match inferArgs key Γ F es with
+        | .ok ts => .ok (τ :: ts)
+        | .err ys => .err ys
+        | .crash s => .crash s
   /-- `transform_joined_str` / `transform_formatted_value` -/
   def inferParts (key : Expr → κ) (Γ : TEnv) (F : Facts κ) : List JPart → Res Unit
     | [] => .ok ()
@@ -396,6 +523,20 @@ mutual
         else inferParts key Γ F ps
 end
 
+/-- `infer_for_invariant`: the body, then "Expected the body of an invariant to be a boolean". -/
+def inferInv (key : Expr → κ) (Γ : TEnv) (e : Expr) : Res Ty :=
+  match infer key Γ [] e with
+  | .ok τ => if Γ.decls.isBool τ then .ok τ else .err [.bodyNotBool]
+  | r => r
+
 /-- The real inferrer: keys are the canonical strings. -/
 def inferC (Γ : TEnv) (e : Expr) : Res Ty := infer canon Γ [] e
+
+/-- The real `infer_for_invariant`. -/
+def inferInvC (Γ : TEnv) (e : Expr) : Res Ty := inferInv canon Γ e
+
+def TEnv.withBackend (Γ : TEnv) : TEnv := { Γ with backend := true }
+
+/-- The invariant passes the inference AND the Python transpiler's check of `len`. -/
+def acceptsPy (Γ : TEnv) (e : Expr) : Res Ty := inferInv canon Γ.withBackend e
 
